@@ -217,3 +217,25 @@ impl IterativeQuery {
         done
     }
 }
+
+#[cfg(mainline_verif)]
+impl IterativeQuery {
+    pub fn verif_snapshot(&self) -> crate::verif::IterativeQuerySnapshot {
+        use crate::verif::{node_snapshot, request_kind};
+
+        crate::verif::IterativeQuerySnapshot {
+            target: self.target(),
+            request_kind: request_kind(&self.request.request_type),
+            closest: self.closest.nodes().iter().map(node_snapshot).collect(),
+            responders: self.responders.nodes().iter().map(node_snapshot).collect(),
+            inflight_requests: self.inflight_requests.clone(),
+            visited: self.visited.iter().copied().collect(),
+            responses: self.responses.len(),
+            public_address_votes: self
+                .public_address_votes
+                .iter()
+                .map(|(address, count)| (*address, *count))
+                .collect(),
+        }
+    }
+}
